@@ -209,6 +209,21 @@ CHECKS['C05'] = dict(
          'uninterpreted, signature oracle on the key path, the summary of the evaluated script. Unknown solver answers fall back to candidate '
          'replay on real libsodium, never to a pass. The graftap builders ride on the same identities (taproot lock + graftroot script of C13).',
     technique=TECH)
+CHECKS['C04'] = dict(
+    text='(a) one OP_MERKLEVAL from an arbitrary state (symbolic root operand, supplied script, sibling item of several lengths, items below, call '
+         'budget): the supplied script is handed to the evaluator iff sha256(sha256(script)) xor sha256(sibling) equals the root, exactly once, '
+         'with both proof items already consumed; otherwise an error is raised and no evaluation starts (a matching proof is refused only for '
+         'lack of call budget). (b) For every binary tree shape (2..4 leaves quick, 2..6 thorough) built with the real ScriptLeaf / ScriptNode '
+         'classes and for the outputs of the prioritized and balanced builders (1..6 / 1..12 leaves), for every leaf: the generated unlocking '
+         'script followed by the locking script, run by the real run_auth_scripts, evaluates exactly that leaf once, on an empty stack, '
+         'evaluates besides it only one node locking script per level, and the verdict equals the (symbolic) leaf verdict. (c) unpack(pack(tree)) '
+         'preserves root, locking script, every leaf script and every unlocking script, and re-packs to the same bytes.',
+    design_ref='DESIGN.md section 4 C04',
+    note='Trusted: SX engine incl. placeholder strings (the unlocking / locking scripts go through the real compiler) and the struct model, z3, '
+         'SHA-256 uninterpreted (equal inputs, equal digests), byte xor in the comparison as an uninterpreted function with the zero lemma, the '
+         'summary of the leaf evaluation. Leaf scripts are 2 symbolic bytes, pairwise different. That no uncommitted (script, sibling) pair hashes '
+         'to the root is the cryptographic assumption of the construction and outside the claim.',
+    technique=TECH)
 NOT_APPLICABLE = {}
 NOTES = ('Exit codes of every check: 0 held on everything explored; 1 + VIOLATION line for a counterexample that was '
          'replayed on the real package and is not a listed known finding; 2 harness error / unsupported construct / '
